@@ -21,7 +21,15 @@ Two further dimensions of the quantifier are driven the same way (spec action ->
   gets a real SIGKILL in archive_file after the rename and j removals; the next run finds what is left ->
   {"e":"killed"}): one file too many per such kill is tolerated only until the next roll completes; after every
   completed roll the count is <= max whatever was found (T_LogCount with the kill debt, T_LogCountAfterRoll)
-  (generator mode "rollkill", DiskBounds_kill.cfg, and in the random histories)."""
+  (generator mode "rollkill", DiskBounds_kill.cfg, and in the random histories);
+* flushes of the event logger that fail after creating their temp file (EvTickFails/EvStopFails -> `ev_tick`/`ev_stop`
+  with "fail": RLIMIT_FSIZE=0 and SIGXFSZ ignored while the logger task runs, so File::create works and the write
+  fails -> the <nanos>.tmp stays): the cap is a bound on ALL entries of the event directory, counted from the raw
+  directory listing whatever the names (generator mode "evfail", directories found with leftover temp files, and in
+  the random histories);
+* what creating the logger object does: the directories are listed BEFORE log_open (set-up check and "reset" line)
+  and AFTER it ("restart" line carrying the files): a restart is an operation judged like any other; crash loops of
+  more short runs than the configured count (generator mode "shortruns", and in the random histories)."""
 import json
 import os
 import random
@@ -67,6 +75,10 @@ ASSUME = [
     "namespace (rename/unlink of the name fail with EBUSY, open-for-append and stat work; the driver verifies that "
     "a rename really fails before it reports the fault as installed); other ways of making the rename fail "
     "(append-only attribute, sticky directory) are taken to look the same to RollingLogger",
+    "a failed flush is produced with RLIMIT_FSIZE=0 (SIGXFSZ ignored) for the duration of one driver operation: "
+    "File::create succeeds and every write to a regular file fails with EFBIG, the path ENOSPC takes through "
+    "json_write_to_file (the driver verifies on a probe file that writes do fail); 'files in the event directory' "
+    "are all its entries, whatever their names; the telemetry reader removes *.json files only",
     "a graceful stop is event_logger::stop() followed by virtual time until the logger task has ended; stop "
     "requests are handled at the loop's next wake-up, i.e. before any further periodic flush",
 ]
@@ -200,10 +212,12 @@ class World:
         self.refused = 0                                     # writes the logger refused
         self.stops_full = 0                                  # graceful stops that found the event directory full
         self.kills = 0                                       # runs killed inside a roll (real SIGKILL)
+        self.tmp_seen = 0                                    # most leftover temp files seen in the event directory
+        self.found = ([], [])
         self.ndump = 0
 
     # --- setup ---------------------------------------------------------------------------------------------------
-    def prefill(self, arch_units, cur_units, ev, ndumps):
+    def prefill(self, arch_units, cur_units, ev, ndumps, tmp=0):
         """files left by earlier runs, named by the code's scheme; returns the reset row fields"""
         lim = self.conf["limit"]
         name = self.lognames["a"]
@@ -216,6 +230,9 @@ class World:
         for i in range(ev):
             with open(os.path.join(self.events, "%d.json" % (1709287200000000000 + i)), "w") as f:
                 f.write("[]")
+        for i in range(tmp):                                  # temp files of flushes that failed / were killed
+            with open(os.path.join(self.events, "%d.tmp" % (1709287100000000000 + i)), "w") as f:
+                f.write("")
         for i in range(ndumps):
             with open(os.path.join(self.logs, "AuthorizationRules_%s.json" % past_stamp(i)), "w") as f:
                 f.write("{}")
@@ -228,16 +245,34 @@ class World:
             f.write(data)
 
     def start(self, kill_at_unlink=0):
+        """returns the listings (logs, events) after the logger objects exist and the event logger task runs;
+        self.found = the listings BEFORE that (what the earlier runs left)"""
         self.proc = Proc(self.exe, self.rundir, os.path.join(self.root, "stderr.txt"), kill_at_unlink)
+        self.found = (self.proc.call({"op": "list", "dir": self.logs})["files"],
+                      self.proc.call({"op": "list", "dir": self.events})["files"])
+        for k in sorted(self.pinned):                        # the fault is the environment's: it outlives the process
+            self.proc.call({"op": "log_pin", "path": os.path.join(self.logs, self.lognames[k])})
         r = None
         for k, nm in self.lognames.items():
             r = self.proc.call({"op": "log_open", "key": k, "dir": self.logs, "name": nm,
                                 "max_size": self.conf["limit"], "max_count": self.conf["maxCount"]})
         e = self.proc.call({"op": "ev_start", "dir": self.events, "cap": self.conf["cap"], "interval_ms": 10})
         self.stopped = False
-        for k in sorted(self.pinned):                        # the fault is the environment's: it outlives the process
-            r = self.proc.call({"op": "log_pin", "path": os.path.join(self.logs, self.lognames[k])})
         return r["files"], e["files"]
+
+    def opened_rows(self, logs, evs, skip=None):
+        """what creating the logger objects / starting the event logger did is an observed step: a "restart" line
+        with the files of every rolling log, and an "ev start" line"""
+        out = None
+        for k in self.lognames:
+            v = self.log_view(k, logs)
+            if k != skip:
+                (self.rows if k == "a" else self.rows_extra[k]).append({"e": "restart", "files": v["files"]})
+            if k == "a":
+                out = v
+        ev = self.ev_view(evs)
+        self.rows.append({"e": "ev", "kind": "start", "ev": ev["all"]})
+        return {"arch": out["arch"], "cur": out["cur"], "dumps": self.dump_view(logs), "ev": ev["ev"], "tmp": ev["tmp"]}
 
     def stop(self):
         if self.proc:
@@ -245,19 +280,24 @@ class World:
             self.proc = None
 
     def reset_row(self):
+        """first run: the "reset" line is what was FOUND (listed before any logger object exists); what opening the
+        loggers does is the next, observed, step.  Returns (found, after_open) projections."""
         logs, evs = self.start()
+        flogs, fevs = self.found
         lim = self.conf["limit"]
         row = dict(self.conf, e="reset")
-        v = self.log_view("a", logs)
+        v = self.log_view("a", flogs)
         row["files"] = [dict(f, lw=max(0, f["size"] - lim + 1)) for f in v["files"]]
-        row["ev"] = self.ev_view(evs)["ev"]
-        row["dumps"] = self.dump_view(logs)
+        fe = self.ev_view(fevs)
+        row["ev"] = fe["all"]
+        row["dumps"] = self.dump_view(flogs)
         self.rows.append(row)
         for k in self.rows_extra:
-            vk = self.log_view(k, logs)
+            vk = self.log_view(k, flogs)
             self.rows_extra[k].append(dict(self.conf, e="reset", ev=0, dumps=[],
                                            files=[dict(f, lw=max(0, f["size"] - lim + 1)) for f in vk["files"]]))
-        return {"arch": v["arch"], "cur": v["cur"], "ev": row["ev"], "dumps": row["dumps"]}
+        found = {"arch": v["arch"], "cur": v["cur"], "ev": fe["ev"], "tmp": fe["tmp"], "dumps": row["dumps"]}
+        return found, self.opened_rows(logs, evs)
 
     # --- projections of a listing -----------------------------------------------------------------------------
     def log_view(self, key, listing):
@@ -302,11 +342,13 @@ class World:
         return sorted(self.dump_ids[n] for n in names)
 
     def ev_view(self, listing):
+        """ev: event files, tmp: leftover temp files, all: EVERY entry of the directory (what the cap is about)"""
         files = [f for f in listing if not f.get("dir")]
-        names = {f["name"] for f in files}
+        names = {f["name"] for f in listing}
         wrote = sum(f.get("events", 0) for f in files if f["name"] not in self.ev_prev)
         self.ev_prev = names
-        return {"ev": len(files), "wrote": wrote}
+        ntmp = sum(1 for f in files if f["name"].endswith(".tmp"))
+        return {"ev": len(files) - ntmp, "tmp": ntmp, "all": len(listing), "wrote": wrote}
 
     # --- operations ----------------------------------------------------------------------------------------------
     def write(self, nbytes, key="a", many=None):
@@ -350,28 +392,31 @@ class World:
     def push(self, n):
         r = self.proc.call({"op": "ev_push", "n": n})
         v = self.ev_view(r["files"])
-        self.rows.append({"e": "ev", "kind": "push", "ev": v["ev"]})
+        self.rows.append({"e": "ev", "kind": "push", "ev": v["all"]})
         return v
 
-    def tick(self):
-        r = self.proc.call({"op": "ev_tick"})
+    def tick(self, fail=False):
+        """time passes (two wake-ups of the logger loop); fail: meanwhile every write to a file fails (disk full)"""
+        r = self.proc.call({"op": "ev_tick", "fail": bool(fail)})
         v = self.ev_view(r["files"])
-        self.rows.append({"e": "ev", "kind": "tick", "ev": v["ev"]})
-        if v["ev"] >= self.conf["cap"]:
+        self.rows.append({"e": "ev", "kind": "tickfail" if fail else "tick", "ev": v["all"]})
+        if v["all"] >= self.conf["cap"]:
             self.nontrivial = True
+        self.tmp_seen = max(self.tmp_seen, v["tmp"])
         return v
 
-    def evstop(self):
+    def evstop(self, fail=False):
         """graceful stop: event_logger::stop(), the loop's next wake-up with its last flush, the task ends"""
         if self.stopped:
             return {}
         n0 = len(self.ev_prev)
-        r = self.proc.call({"op": "ev_stop"})
+        r = self.proc.call({"op": "ev_stop", "fail": bool(fail)})
         self.stopped = True
         if not r.get("finished"):
             self.notes.append({"op": "ev_stop", "note": "the event logger task did not end"})
         v = self.ev_view(r["files"])
-        self.rows.append({"e": "ev", "kind": "stop", "ev": v["ev"]})
+        self.rows.append({"e": "ev", "kind": "stopfail" if fail else "stop", "ev": v["all"]})
+        self.tmp_seen = max(self.tmp_seen, v["tmp"])
         if n0 >= self.conf["cap"]:
             self.nontrivial = True
             self.stops_full += 1
@@ -379,12 +424,13 @@ class World:
 
     def remove(self, k):
         """the telemetry reader: removes the k oldest event files"""
-        names = sorted(n for n in os.listdir(self.events) if os.path.isfile(os.path.join(self.events, n)))
+        names = sorted(n for n in os.listdir(self.events)            # the reader takes *.json only
+                       if n.endswith(".json") and os.path.isfile(os.path.join(self.events, n)))
         for n in names[:k]:
             os.unlink(os.path.join(self.events, n))
         r = self.proc.call({"op": "list", "dir": self.events})
         v = self.ev_view(r["files"])
-        self.rows.append({"e": "ev", "kind": "remove", "ev": v["ev"]})
+        self.rows.append({"e": "ev", "kind": "remove", "ev": v["all"]})
         return v
 
     def dump(self):
@@ -404,11 +450,7 @@ class World:
     def restart(self):
         self.stop()
         logs, evs = self.start()
-        self.rows.append({"e": "restart"})
-        v = self.log_view("a", logs)
-        for k in self.rows_extra:
-            self.log_view(k, logs)
-        return {"arch": v["arch"], "cur": v["cur"], "dumps": self.dump_view(logs), "ev": self.ev_view(evs)["ev"]}
+        return self.opened_rows(logs, evs)
 
     def cur_size(self, key="a"):
         return self.prev[key].get(self.lognames[key], (None, -1))[1]
@@ -425,8 +467,7 @@ class World:
         if not shutil.which("strace"):
             raise util.ToolError("strace is needed for the kill-inside-a-roll dimension of C19")
         self.stop()
-        self.start(kill_at_unlink=j + 1)
-        self.rows.append({"e": "restart"})
+        self.opened_rows(*self.start(kill_at_unlink=j + 1))
         self.tok += 1
         try:
             r = self.proc.call({"op": "log_write", "key": key, "token": "w%d" % self.tok, "bytes": nbytes},
@@ -439,15 +480,9 @@ class World:
             logs, evs = self.start()
             self.kills += 1
             self.nontrivial = True
-            v = self.log_view(key, logs)
-            for k in self.lognames:
-                if k != key:
-                    self.log_view(k, logs)
+            v = self.log_view(key, self.found[0])            # what the killed run left, before any logger object exists
             (self.rows if key == "a" else self.rows_extra[key]).append({"e": "killed", "n": nbytes, "files": v["files"]})
-            if key != "a":
-                self.rows.append({"e": "restart"})
-            return {"arch": v["arch"], "cur": v["cur"], "dumps": self.dump_view(logs), "ev": self.ev_view(evs)["ev"],
-                    "killed": True}
+            return dict(self.opened_rows(logs, evs), killed=True)
         ok = bool(r.get("ok"))
         if not ok:
             self.refused += 1
@@ -459,7 +494,7 @@ class World:
     def segments(self):
         segs = [self.rows]
         for k, rows in self.rows_extra.items():
-            if len(rows) > 1:
+            if any(r["e"] in ("write", "killed") for r in rows):
                 segs.append(rows)
         return segs
 
@@ -487,16 +522,16 @@ def apply_step(w, step, rnd):
         return w.write(nbytes, key=step.get("key", "a"), many=many)
     if op == "push":
         return w.push(step["n"])
-    if op == "tick":
-        return w.tick()
+    if op in ("tick", "tickfail"):
+        return w.tick(fail=(op == "tickfail" or bool(step.get("fail"))))
     if op == "remove":
         return w.remove(step["n"])
     if op == "dump":
         return w.dump()
     if op == "restart":
         return w.restart()
-    if op == "stop":
-        return w.evstop()
+    if op in ("stop", "stopfail"):
+        return w.evstop(fail=(op == "stopfail" or bool(step.get("fail"))))
     if op in ("pin", "unpin"):
         return w.pin(step.get("key", "a"), on=(op == "pin"))
     if op == "kill":
@@ -508,9 +543,11 @@ def apply_step(w, step, rnd):
 
 def expected_of(h):
     if h.get("op") == "kill":
-        return {"arch": [u * UNIT for u in h["arch"]], "cur": -1, "ev": h["ev"], "dumps": h["dumps"], "killed": True}
+        return {"arch": [u * UNIT for u in h["arch"]], "cur": -1, "ev": h["ev"], "tmp": h.get("tmp", 0),
+                "dumps": h["dumps"], "killed": True}
     return {"arch": [u * UNIT for u in h["arch"]], "cur": h["cur"] * UNIT if h["cur"] >= 0 else -1,
-            "ev": h["ev"], "wrote": h["wrote"], "dumps": h["dumps"], "refused": bool(h.get("refused"))}
+            "ev": h["ev"], "tmp": h.get("tmp", 0), "wrote": h["wrote"], "dumps": h["dumps"],
+            "refused": bool(h.get("refused"))}
 
 
 def steps_of_hist(hist, rnd):
@@ -536,22 +573,29 @@ def run_behaviour(rundir, exe, name, case, rnd):
     init = case["init"]
     drift = None
     try:
-        w.prefill(init["arch"], init["cur"], init["ev"], len(init["dumps"]))
-        obs = w.reset_row()
+        w.prefill(init["arch"], init["cur"], init["ev"], len(init["dumps"]), tmp=init.get("tmp", 0))
+        found, obs = w.reset_row()
         exp = case.get("expect")
         if exp is not None:
             e0 = expected_of(exp[0])
-            for k in ("arch", "cur", "ev", "dumps"):
-                if obs[k] != e0[k]:
-                    raise util.ToolError("pre-filled directory is not seen as intended: %s %r != %r" % (k, obs[k], e0[k]))
+            for k in ("arch", "cur", "ev", "tmp", "dumps"):
+                # the harness's own set-up, listed BEFORE any object of the code under test exists
+                if found[k] != e0[k]:
+                    raise util.ToolError("pre-filled directory is not seen as intended: %s %r != %r"
+                                         % (k, found[k], e0[k]))
+            # creating the logger objects is the code's first step: the spec says it changes nothing
+            bad = {k: {"spec": e0[k], "real": obs[k]} for k in obs if k in e0 and obs[k] != e0[k]}
+            if bad:
+                drift = {"step": -1, "op": {"op": "open"}, "diff": bad}
         for i, step in enumerate(case["steps"]):
             obs = apply_step(w, step, rnd)
             if exp is not None and drift is None:
                 e = expected_of(exp[i + 1])
                 bad = {k: {"spec": e[k], "real": obs[k]} for k in obs if k in e and obs[k] != e[k]}
                 if bad:
+                    # abstract states diverged: later expectations are meaningless, but the history goes on and
+                    # every line of it is judged against the property
                     drift = {"step": i, "op": step, "diff": bad}
-                    break            # abstract states diverged: later expectations are meaningless
     finally:
         w.stop()
     return w, drift
@@ -572,13 +616,19 @@ def random_history(rnd, conf, nops, big=False):
         elif y < 0.07:
             # graceful stop with events still queued, then (mostly at once) the next run
             steps.append({"op": "push", "n": rnd.choice([1, 2, 5])})
-            steps.append({"op": "stop"})
+            steps.append({"op": "stop", "fail": rnd.random() < 0.2})
             if rnd.random() < 0.8:
                 steps.append({"op": "restart"})
         elif y < 0.085 and not big:
             # a run killed inside a roll (the current file is first taken to its limit), then the next run
             steps.append({"op": "kill", "fill": True, "bytes": rnd.choice([48, 64, 200]), "j": rnd.choice([0, 0, 0, 1]),
                           "key": rnd.choice(["a", "a", "b"])})
+        elif y < 0.095 and not big:
+            # a crash loop: more short runs than the configured count, a line or two each
+            k = rnd.choice(["a", "a", "b"])
+            for _ in range(conf["maxCount"] + 3):
+                steps.append({"op": "write", "bytes": rnd.choice([48, 64, 100]), "key": k, "many": False})
+                steps.append({"op": "restart"})
         if x < 0.45:
             if big:
                 n = rnd.choice([lim // 10, lim // 3, lim // 2, lim - 1, lim, lim + 1, rnd.randint(48, lim // 2)])
@@ -590,7 +640,7 @@ def random_history(rnd, conf, nops, big=False):
         elif x < 0.62:
             steps.append({"op": "push", "n": rnd.choice([1, 1, 2, 5, 40, 1200])})
             if rnd.random() < 0.8:
-                steps.append({"op": "tick"})
+                steps.append({"op": "tick", "fail": rnd.random() < 0.15})       # now and then the disk is full
         elif x < 0.72:
             steps.append({"op": "tick"})
         elif x < 0.78:
@@ -626,7 +676,7 @@ def crash_window(rundir, exe, c):
     after_kill = sorted(os.listdir(w.logs))
     # the next run finds that directory and writes once
     w.rows = []
-    obs0 = w.reset_row()
+    w.reset_row()
     obs1 = w.write(64)
     w.stop()
     n0 = len([n for n in after_kill if n.startswith(LOG_A)])
@@ -690,7 +740,8 @@ def run(c):
           required_actions=["LogKilledInRoll", "LogWriteNoRoll", "LogWriteRollKeep", "LogWriteRollTrim", "Restart"])
     c.tlc("DiskBounds", "DiskBounds_event.cfg", workers=8, timeout=300,
           required_actions=["EvPush", "EvPushClosed", "EvTickIdle", "EvTickWrite", "EvTickDrop", "EvTickStopped",
-                            "EvStopIdle", "EvStopWrite", "EvStopDrop", "EvReaderRemove", "Restart"])
+                            "EvTickFails", "EvStopIdle", "EvStopWrite", "EvStopDrop", "EvStopFails",
+                            "EvReaderRemove", "Restart"])
     c.tlc("DiskBounds", "DiskBounds_dumps.cfg", workers=8, timeout=300,
           required_actions=["DumpWriteKeep", "DumpWriteTrim", "Restart"])
     c.tlc("DiskBounds", "DiskBounds_crash.cfg", workers=8, timeout=600,
@@ -708,9 +759,11 @@ def run(c):
              # directed: stop/restart cycles over full event directories; writes while the rename fails
              # ... ; a run killed inside a roll (real SIGKILL), the next runs rolling on
              ("evstop", 12, 60 if thorough else 8), ("logfault", 12, 40 if thorough else 6),
-             ("rollkill", 14, 40 if thorough else 5)]
+             ("rollkill", 14, 40 if thorough else 5),
+             # ... ; flushes that fail after creating their temp file; crash loops of short runs
+             ("evfail", 12, 60 if thorough else 10), ("shortruns", 14, 30 if thorough else 8)]
     if thorough:
-        plans += [("all", 40, 100), ("log", 60, 60), ("evstop", 30, 30), ("logfault", 30, 30), ("rollkill", 30, 20)]
+        plans += [("evfail", 30, 30), ("all", 40, 100), ("log", 60, 60), ("evstop", 30, 30), ("logfault", 30, 30), ("rollkill", 30, 20)]
     hists, directed = [], []
     for k, (machine, depth, num) in enumerate(plans):
         res = c.tlc("DiskBoundsGen", "DiskBoundsGen.cfg", subdir="gen", workers=1, coverage=False, timeout=900,
@@ -720,7 +773,7 @@ def run(c):
         hs = tlcmod.printed_json(res, "REPLAY")
         if not hs:
             raise util.ToolError("generator printed no behaviour for %s" % machine)
-        if machine in ("evstop", "logfault", "rollkill"):
+        if machine in ("evstop", "logfault", "rollkill", "evfail", "shortruns"):
             directed += hs
         else:
             hists += hs
@@ -744,7 +797,7 @@ def run(c):
     # queued over a full directory, and writes that need a roll while the rename fails
     cap = MODEL["cap"]
     stop_at_cap = sum(1 for h in uniq for i in range(1, len(h))
-                      if h[i]["op"] == "stop" and h[i - 1]["q"] > 0 and h[i - 1]["ev"] >= cap)
+                      if h[i]["op"] == "stop" and h[i - 1]["q"] > 0 and h[i - 1]["ev"] + h[i - 1]["tmp"] >= cap)
     refusals = sum(1 for h in uniq for x in h[1:] if x.get("refused"))
     c.extra["stops_over_full_directory_replayed"] = stop_at_cap
     c.extra["writes_during_rename_fault_needing_a_roll_replayed"] = refusals
@@ -754,6 +807,17 @@ def run(c):
                            and any(x["op"] == "kill" for x in h[1:i]))
     c.extra["kills_inside_a_roll_replayed"] = kills
     c.extra["rolls_after_a_kill_replayed"] = rolls_after_kill
+    failed_flushes = sum(1 for h in uniq for x in h[1:] if x["op"] in ("tickfail", "stopfail"))
+    flushes_over_leftovers = sum(1 for h in uniq for i in range(1, len(h))
+                                 if h[i]["op"] in ("tick", "stop") and h[i - 1]["q"] > 0 and h[i - 1]["tmp"] > 0
+                                 and h[i - 1]["ev"] + h[i - 1]["tmp"] >= cap)
+    short_runs = sum(1 for h in uniq if sum(1 for x in h[1:] if x["op"] == "restart") >= MODEL["maxCount"] + 3)
+    c.extra["failed_flushes_replayed"] = failed_flushes
+    c.extra["flushes_over_directories_full_with_leftover_temp_files_replayed"] = flushes_over_leftovers
+    c.extra["behaviours_with_more_restarts_than_max_count_plus_3"] = short_runs
+    if failed_flushes < 5 or flushes_over_leftovers < 3 or short_runs < 3:
+        raise util.ToolError("generated behaviours do not exercise failed flushes (%d), flushes over leftovers at the "
+                             "cap (%d), crash loops (%d)" % (failed_flushes, flushes_over_leftovers, short_runs))
     if stop_at_cap < 3 or refusals < 10 or kills < 5 or rolls_after_kill < 10:
         raise util.ToolError("generated behaviours do not exercise stop-at-cap (%d) / refused writes (%d) / kills "
                              "inside a roll (%d) and rolls after them (%d)"
@@ -761,10 +825,10 @@ def run(c):
     util.log("replaying %d generated behaviours" % len(uniq))
 
     segs, cases, drifts, notes = [], {}, [], []
-    refused_seen = kills_seen = 0
+    refused_seen = kills_seen = tmp_seen = 0
     t = util.Timer()
     for i, h in enumerate(uniq):
-        case = {"conf": MODEL, "init": {k: h[0][k] for k in ("arch", "cur", "ev", "dumps")},
+        case = {"conf": MODEL, "init": {k: h[0][k] for k in ("arch", "cur", "ev", "tmp", "dumps")},
                 "steps": steps_of_hist(h, rnd), "expect": h}
         w, drift = run_behaviour(rundir, exe, "b", case, rnd)
         o = "gen%d" % i
@@ -776,6 +840,7 @@ def run(c):
         notes += w.notes
         refused_seen += w.refused
         kills_seen += w.kills
+        tmp_seen = max(tmp_seen, w.tmp_seen)
         if drift:
             drifts.append(dict(drift, behaviour=o))
         if i == 0:
@@ -786,6 +851,7 @@ def run(c):
     c.extra["behaviours_replayed"] = len(uniq)
     c.extra["writes_refused_by_the_real_logger"] = refused_seen
     c.extra["runs_killed_inside_a_roll_on_the_real_logger"] = kills_seen
+    c.extra["most_leftover_temp_files_seen_in_the_real_event_directory"] = tmp_seen
 
     # 3. random histories, real constants (counts 5 / 30 / 5; the 10 MiB limit in the 'real' ones)
     nsmall, nops = (60, 400) if thorough else (10, 250)
@@ -797,7 +863,9 @@ def run(c):
         steps = random_history(rnd, conf, 70 if big else nops, big=big)
         # the event directory found by the first run: empty, one below the cap, at the cap
         ev0 = [0, conf["cap"], conf["cap"] - 1][i % 3]
-        case = {"conf": conf, "init": {"arch": [], "cur": -1, "ev": ev0, "dumps": []}, "steps": steps,
+        tmp0 = [0, 2, 1, 0][i % 4]                            # some of them leftover temp files of failed flushes
+        case = {"conf": conf, "init": {"arch": [], "cur": -1, "ev": max(ev0 - tmp0, 0), "tmp": min(tmp0, ev0),
+                                       "dumps": []}, "steps": steps,
                 "expect": None, "loggers": (("a", LOG_A), ("b", LOG_B))}
         w, _ = run_behaviour(rundir, exe, "r", case, rnd)
         o = "rand%d" % i
@@ -876,9 +944,11 @@ def run(c):
               "max=3, limit=4, writes 1..6, directories pre-filled to and beyond the limits, the rename fault switched "
               "on and off anywhere (log), runs killed inside a roll and restarted, up to 2 kills per completed roll "
               "(kill; states identified up to the sizes of archived files), graceful stops of the event logger "
-              "anywhere (event); S->I: behaviours "
+              "and flushes failing after the creation of their temp file anywhere, directories found with leftover "
+              "temp files (event); S->I: behaviours "
               "simulated from the spec (seeded; undirected plus the directed families stop/restart cycles over full "
-              "event directories, writes under the rename fault, runs killed inside a roll by a real SIGKILL) "
+              "event directories, writes under the rename fault, runs killed inside a roll by a real SIGKILL, failed "
+              "flushes over directories with leftover temp files, crash loops of short runs) "
               "replayed on the real code, listing and accepted/refused compared after every operation; "
               "I->S: all observed lines plus seeded random histories with the real counts validated by TLC against "
               "the property; evaluations = operations executed on the real code; distinct_nontrivial = distinct "
